@@ -115,7 +115,9 @@ func (q *ShardQueue) Close() error {
 	}
 	// wait for all tasks finished
 	for atomic.LoadInt32(&q.state) != closed {
-		if atomic.LoadInt32(&q.trigger) == 0 {
+		// the worker settles the trigger counter before it flushes and gives runNum back after the flush:
+		// wait for both (in this order), or Close returns with data appended but not flushed
+		if atomic.LoadInt32(&q.trigger) == 0 && atomic.LoadInt32(&q.runNum) == 0 {
 			atomic.StoreInt32(&q.state, closed)
 			return nil
 		}
